@@ -14,7 +14,8 @@ import TempestVerif.Model.CallsRun
         likelihood returns)                   → ok logl=<toks> blobs=<none|single:<toks>|rows:<k>:<row|row…>> log=<indices> | error
    wrap.call args=<none|tok,…|-> kwargs=<none|k~v,…|->                       → args=<…> kwargs=<…>
    evlik hb=<0|1> n=<n_calls> w=<n_walkers> blobs=<0|1>                      → <n_calls'> <blobs handed on 0|1>
-   crun np=<n> nw=<n> start=<fresh|resume:<c>|resume:none> fuel=<n> ops=<w|m:<steps>;…|->   → <calls> <batch sizes> | error
+   crun np=<n> nw=<n> start=<fresh|resume:<c>|resume:none|cont:<c>> fuel=<n> ops=<w|w:<redraws>|m:<steps>;…|->
+   start.kind path=<0|1> hist=<n>                                             → fresh | resume | continued | error   → <calls> <batch sizes> | error
 -/
 namespace Drv.C13
 open Drv Model.Dispatch
@@ -33,7 +34,7 @@ def parseOp? (s : String) : Option Op :=
   | _ => none
 
 def callTable : CallTable :=
-  ⟨Gen.Dispatch.warmupIncrement, Gen.Dispatch.warmupBatch, Gen.Dispatch.stepIncrement, Gen.Dispatch.stepBatch⟩
+  ⟨Gen.Dispatch.warmupDrawnStep, Gen.Dispatch.warmupBatch, Gen.Dispatch.stepIncrement, Gen.Dispatch.stepBatch⟩
 
 open Model.LLEval Model.CallsRun in
 def parsePoolV? (s : String) : Option PoolV :=
@@ -80,12 +81,15 @@ def showBlobs : Option (Blobs String) → String
 open Model.CallsRun in
 def parseIt? (s : String) : Option ItKind :=
   match s.splitOn ":" with
-  | ["w"] => some .warm
+  | ["w"] => some (.warm 0)
+  | ["w", r] => r.toNat?.map .warm
   | ["m", k] => k.toNat?.map .mcmc
   | _ => none
 
 def runTable : Model.CallsRun.RunTable :=
-  ⟨callTable, Gen.Dispatch.nCallsInit, Gen.Dispatch.freshCalls, Gen.Dispatch.resumeDefault⟩
+  ⟨⟨Gen.Dispatch.warmupIncrement, Gen.Dispatch.warmupBatch, Gen.Dispatch.stepIncrement, Gen.Dispatch.stepBatch⟩,
+   Gen.Dispatch.nCallsInit, Gen.Dispatch.freshCalls, Gen.Dispatch.resumeDefault,
+   Gen.Dispatch.warmupDrawnInit, Gen.Dispatch.warmupDrawnStep, Gen.Dispatch.warmupCap⟩
 
 open Model.LLEval Model.CallsRun in
 def handle2 (cmd : String) (args : List (String × String)) : Option String :=
@@ -124,6 +128,11 @@ def handle2 (cmd : String) (args : List (String × String)) : Option String :=
         | some (_, b, n') => s!"{n'} {showBool b.isSome}"
         | none => "error")
     | _, _, _, _ => some "bad-op"
+  | "start.kind" =>
+    match (getArg args "path").map (· == "1"), (getArg args "hist").bind String.toNat? with
+    | some p, some n => some (match startKind Gen.Dispatch.runStart p n with
+        | some .fresh => "fresh" | some .resume => "resume" | some .continued => "continued" | none => "error")
+    | _, _ => some "bad-op"
   | "crun" =>
     match (getArg args "np").bind String.toNat?, (getArg args "nw").bind String.toNat?, (getArg args "fuel").bind String.toNat?,
           getArg args "start",
@@ -133,11 +142,12 @@ def handle2 (cmd : String) (args : List (String × String)) : Option String :=
         | ["fresh"] => some (.fresh ops)
         | ["resume", "none"] => some (.resume ops none)
         | ["resume", c] => c.toNat?.map fun c => .resume ops (some c)
+        | ["cont", c] => c.toNat?.map fun c => .continued ops c
         | _ => none
       match start? with
       | none => some "bad-op"
       | some start =>
-        some (match runSampling runTable (scripted np nw) (fun _ _ => some ()) np fuel (ops.length + 1) start with
+        some (match runSampling runTable (scripted np nw) (scriptEv (scriptFlags ops)) np fuel (ops.length + 1) start with
           | some r => s!"{r.calls} {showList toString (r.asked.map List.length)}"
           | none => "error")
     | _, _, _, _, _ => some "bad-op"
